@@ -1387,7 +1387,7 @@ func (r *Runtime) arrayproto_toSpliced(call FunctionCall) Value {
 		panic(r.NewTypeError("Invalid array length"))
 	}
 
-	if src := r.checkStdArrayObj(o); src != nil {
+	if src := r.checkStdArrayObj(o); src != nil && int64(len(src.values)) == length {
 		var values []Value
 		if itemCount == actualSkipCount {
 			values = make([]Value, len(src.values))
